@@ -14,9 +14,11 @@ EXPLANATION = (
     "is a bare operator (panics in a checked build, wraps in an unchecked one) instead of an overflow-aware form; "
     "(zero) every exact division tests each divisor factor for zero first; (denominator-sign) sign analysis: given "
     "positive operand denominators every ratio built has a positive denominator, which the sign-naive consumers "
-    "(comparison, floor, ceiling, printing) rely on; (literal) the u32 denominator of a ratio literal is range-checked "
+    "(comparison, floor, ceiling, printing) rely on; (rounding) symbolic evaluation of the ratio arm of floor and ceiling: every "
+    "path's result formula is the greatest integer not above / least integer not below a/b on all sign and divisibility classes "
+    "(a in -7..7, b in 1..4); (literal) the u32 denominator of a ratio literal is range-checked "
     "before it becomes an i32.")
-NOT_DECIDED = ("numerical correctness of each formula (e.g. the value floor returns for each sign case), and the binary32 "
+NOT_DECIDED = ("numerical correctness of the formulas of + - * / themselves (only their kinds, ranges and zero guards), and the binary32 "
                "result of inexact operations; beyond 2^15 only overflow-safety is judged, not value equality.")
 
 R15 = 2 ** 15 - 1
@@ -177,6 +179,13 @@ def run(ctx):
     ctx.rule("C09-never-wrong-exact", "no exact i32 operation may panic or wrap on overflow for *any* operands")
     ctx.rule("C09-denominator-sign", "ratios are built with positive denominators (consumers are sign-naive)")
     range_and_sign(ctx, fb)
+
+    # ------------------------------------------------------------------ C09-rounding
+    ctx.rule("C09-rounding", "floor / ceiling of an exact ratio a/b (b > 0): symbolic evaluation of the ratio arm, every path's result "
+                             "formula checked against the greatest integer not above / least integer not below a/b on all sign and "
+                             "divisibility classes (a in -7..7, b in 1..4)")
+    from . import numtables
+    numtables.rule_rounding(ctx, "C09-rounding")
 
     # ------------------------------------------------------------------ C09-zero
     ctx.rule("C09-zero", "exact division by zero is an error: every divisor factor is tested before dividing")
@@ -374,9 +383,67 @@ def range_and_sign(ctx, fb, census=True):
                    mir.span_loc(span))
     if total < 30:
         ctx.report("C09-range", "floor", "only %d arithmetic obligations analysed (expected >= 30)" % total)
+    # every OTHER function that takes numbers and (through the functions it calls) builds a ratio: the invariant has to hold for
+    # whatever entry point constructs ratios, not only for the operators listed above.  Functions that are called from an
+    # analysed function are covered by that caller (they may have preconditions their caller establishes).
+    table = {fb.find(p_).name for p_ in allf.values()}
+    extra = []
+    numfns = []
+    for g in fb.all("lib"):
+        if g.derived or "{closure" in g.name or "::tests::" in g.name:
+            continue
+        tys = [g.local_ty(i) or "" for i in range(1, g.arg_count + 1)]
+        if tys and all(t.replace("&", "").startswith("values::Number<") for t in tys) and g.arg_count <= 2:
+            numfns.append(g)
+    names = {g.name for g in numfns}
+
+    def builds_ratio(g, depth=4, seen=None):
+        seen = seen if seen is not None else set()
+        if g.name in seen or depth < 0:
+            return False
+        seen.add(g.name)
+        if any(v == "Rational" for _, _, _, _, v in mir.aggregates(g, None, "values::Number")):
+            return True
+        for _, t in g.calls():
+            h = fb.by_call(t) or fb.by_path(callee(t) or "")
+            if h is not None and builds_ratio(h, depth - 1, seen):
+                return True
+        return False
+    for g in numfns:
+        if g.name in table:
+            continue
+        called_by_analysed = any(callee(t) == g.name for h in numfns if h is not g for _, t in h.calls())
+        if called_by_analysed or not builds_ratio(g):
+            continue
+        extra.append(g)
+    three = (("pos", IV(1, R15)), ("neg", IV(-R15, -1)), ("zero", IV(0)))
+    for g in extra:
+        per_arg = []
+        for i in range(g.arg_count):
+            opts = [("Integer:" + sn, mk(fb, "Integer", siv, None)) for sn, siv in three]
+            opts += [("Rational:" + sn + "/pos", mk(fb, "Rational", siv, IV(1, R15))) for sn, siv in three]
+            per_arg.append(opts)
+        import itertools as _it
+        for combo in _it.product(*per_arg):
+            it = Interp(fb)
+            label = "%s(%s)" % (_short(g.name), ", ".join(c[0] for c in combo))
+            try:
+                it.run(g, [c[1] for c in combo])
+            except RuntimeError as e:
+                ctx.undecided("C09-denominator-sign", _short(g.name) + "/analysis", "interval analysis of %s did not terminate: %s" % (g.name, e), where_of(g))
+                break
+            for (fn, blk, e) in it.aggregates:
+                if e.adt and e.adt.endswith("values::Number") and e.name == "Rational":
+                    d = e.fields[1]
+                    okd = isinstance(d, IV) and d.lo >= 1
+                    ctx.inst("C09-denominator-sign", "%s@%s" % (label, fn.rsplit("::", 1)[-1]), {"denominator": repr(d)})
+                    if not okd:
+                        neg_den.setdefault(g.name, (label, repr(d)))
+    ctx.inst("C09-denominator-sign", "other-ratio-builders", {"functions": [g.name for g in extra]})
     for fn, (label, d) in sorted(neg_den.items()):
         ctx.report("C09-denominator-sign", _short(fn), "given positive operand denominators %s builds a ratio whose denominator "
-                   "ranges over %s (case %s): a non-positive denominator makes comparison, floor/ceiling and the printed form wrong"
+                   "ranges over %s (case %s): a zero denominator is a division by exact zero that went unreported, a negative one makes "
+                   "comparison, floor/ceiling and the printed form wrong"
                    % (_short(fn), d, label), where_of(fb.by_path(fn)))
     if not census:
         return
